@@ -365,9 +365,7 @@ Theorem C02_limit_full_text :
   forall (jsx : bool) (env : cenv) (max_repeat : option N) (s : str) (toks : list token) (root : list tnode),
     tokenize s = TOk toks -> parse jsx toks = POk root ->
     convert env max_repeat root = Ok (convert_w env max_repeat root).
-Proof.
-  intros jsx env mr s toks root Ht Ep. apply convert_wrap_full. exact (parser_output_printable jsx s toks root Ht Ep).
-Qed.
+Proof. exact convert_text_full. Qed.
 Print Assumptions C02_limit_full_text.
 
 (* on C02's own domain (no text, clean trees) the extended spec is the budgeted unrolling of C02_limit_full;
